@@ -18,3 +18,50 @@ Print Assumptions C01_wrap_quotes_sound.
 Theorem C01_join_words : forall uw args, sh_words uw (join uw args) = Some args.
 Proof. exact join_words. Qed.
 Print Assumptions C01_join_words.
+
+(* ---- Make layer ---- *)
+From Coq Require Import String.
+From BFG Require Import Make.MakeWrite Make.MakeRead Make.MakeProofs.
+
+(* the $ -> $$ escaping is undone by Make's expansion, whatever the variable table *)
+Theorem C01_make_dollar_roundtrip : forall v s, expand v (dollar_esc s) = Some s.
+Proof. exact expand_dollar_esc_id. Qed.
+Print Assumptions C01_make_dollar_roundtrip.
+
+(* channel R: a recipe line written for a list of argument words is handed by Make to sh as a text that sh
+   splits into exactly those words, provided the (quoted) command word does not start with a recipe prefix
+   character @ - + *)
+Theorem C01_recipe : forall uw us v ws line,
+  write_recipe_line uw us (words_items ws) = Some line ->
+  head_ok uw ws = true ->
+  match recipe_shell_text v line with Some t => sh_words uw t | None => None end = Some ws.
+Proof. exact recipe_roundtrip. Qed.
+Print Assumptions C01_recipe.
+
+(* channel V: NAME := words (as written now, with # escaped) gives the variable the sh text of the words,
+   hence a reference to it in a recipe delivers exactly the words *)
+Theorem C01_var_assign : forall uw us v ws text,
+  write_value uw us (words_items ws) SynShell = Some text ->
+  match assign_value v text with Some t => sh_words uw t | None => None end = Some ws.
+Proof. exact assign_words. Qed.
+Print Assumptions C01_var_assign.
+
+(* Make's comment rule undoes the # escaping for every string and every pending backslash run *)
+Theorem C01_hash_escape_roundtrip : forall s, strip_comment 0 (bs_esc hash_special 0 s) = s.
+Proof. intros s. exact (strip_comment_hash_esc s 0). Qed.
+Print Assumptions C01_hash_escape_roundtrip.
+
+(* the writer before the repair (no # escaping) truncated flags: documented refutation *)
+Theorem C01_var_assign_unfixed_refuted : exists ws text,
+  write_value_unfixed (fun _ => false) (fun _ => false) (words_items ws) SynShell = Some text /\
+  match assign_value (fun _ => []) text with Some t => sh_words (fun _ => false) t | None => None end <> Some ws.
+Proof. exists [STR "-DFOO=a#b"], (STR "'-DFOO=a#b'"). split; [reflexivity|]. vm_compute. discriminate. Qed.
+Print Assumptions C01_var_assign_unfixed_refuted.
+
+(* non-vacuity: a concrete word list with quotes, $, #, blanks, ~ and % meets the guards and round-trips *)
+Example C01_recipe_nonvacuous :
+  let ws := [STR "cc"; STR "-DFOO=a#b"; STR "it's"; STR "$HOME"; STR "a b"; STR "~x"; STR "%k"; STR "i,j"] in
+  exists line, write_recipe_line (fun _ => false) (fun _ => false) (words_items ws) = Some line /\
+    head_ok (fun _ => false) ws = true /\
+    match recipe_shell_text (fun _ => []) line with Some t => sh_words (fun _ => false) t | None => None end = Some ws.
+Proof. eexists. split; [vm_compute; reflexivity|]. split; vm_compute; reflexivity. Qed.
